@@ -22,12 +22,14 @@ class Run:
         self.guard = threading.Lock()
         self.errors = {}
         self.switches = 0
+        self.block_streak = 0     # forced switches in a row without any thread executing a monitored line
 
     def other(self, me):
         return "B" if me == "A" else "A"
 
     def point(self, me, where):
         with self.guard:
+            self.block_streak = 0
             self.trace.append((me, where))
             oth = self.other(me)
             if oth in self.done:
@@ -46,6 +48,11 @@ class Run:
         oth = self.other(me)
         if oth in self.done:
             raise RuntimeError("deadlock: lock held by a finished thread")
+        self.block_streak += 1
+        if self.block_streak > 6:
+            # both threads keep handing the baton back without either having executed a line: each waits for a lock
+            # that only the other (or it itself) could release
+            raise RuntimeError("deadlock: both threads wait for a lock")
         self.sems[oth].release()
         self.sems[me].acquire()
 
@@ -126,11 +133,56 @@ class SchedEvent:
         return True
 
 
+class CapturedThread:
+    """What threading.Thread(...) returns under SchedThreading(capture=True): start() only records; the harness runs the
+    target on one of its controlled threads after adopt(), and current_thread() then answers with this object."""
+
+    def __init__(self, owner, group=None, target=None, name=None, args=(), kwargs=None, daemon=None):
+        self.owner = owner
+        self.target = target
+        self.args = tuple(args)
+        self.kwargs = dict(kwargs or {})
+        self.name = name or "captured"
+        self.daemon = bool(daemon)
+        self.started = False
+        self.ident = None
+
+    def start(self):
+        self.started = True
+        self.owner.started.append(self)
+
+    def is_alive(self):
+        return self.started and self.ident is not None and not getattr(self, "finished", False)
+
+    def join(self, timeout=None):
+        return None
+
+    def run_here(self):
+        self.ident = threading.get_ident()
+        self.owner.adopted[self.ident] = self
+        try:
+            return self.target(*self.args, **self.kwargs)
+        finally:
+            self.finished = True
+            self.owner.adopted.pop(self.ident, None)
+
+
 class SchedThreading:
     """Stand-in for the threading module: Event (and Lock) cooperate with the explorer, the rest is real."""
 
-    def __init__(self, explorer):
+    def __init__(self, explorer, capture=False):
         self.ex = explorer
+        self.capture = capture
+        self.started = []
+        self.adopted = {}
+
+    def Thread(self, *a, **kw):
+        if not self.capture:
+            return threading.Thread(*a, **kw)
+        return CapturedThread(self, *a, **kw)
+
+    def current_thread(self):
+        return self.adopted.get(threading.get_ident()) or threading.current_thread()
 
     def Event(self):
         return SchedEvent(self.ex)
